@@ -60,3 +60,13 @@ Proof.
   split; [reflexivity|]. split; [exact Hr|]. split; [exact Hax|]. split; [exact Hoth|].
   intros Hw. apply (concat_fold_wf axis rest (tz t0)). exact Hw.
 Qed.
+
+(* the joining step S folds over the inputs: at every valid index of the joined shape the element
+   is the left operand's where the axis coordinate lies within its extent, and otherwise the right
+   operand's at that coordinate minus the left extent (all other coordinates unchanged) *)
+Lemma concat2_element axis a b i :
+  valid (tshape (concat2 axis a b)) i ->
+  get 0%Z (concat2 axis a b) i =
+  if nth axis i 0 <? nthz (tshape a) axis then get 0%Z a i
+  else get 0%Z b (map (fun k => if Nat.eqb k axis then nth k i 0 - nthz (tshape a) axis else nth k i 0) (seq 0 (List.length i))).
+Proof. intros Hv. unfold concat2 in *. exact (get_tabulate 0%Z _ _ i Hv). Qed.
